@@ -568,6 +568,11 @@ func (q *BufferedChannelQueue[T]) loadFromPool() {
 		}
 
 		q.lock.Lock()
+		// Close() may have run between the check above and taking the lock
+		if q.isClosed.Get() {
+			q.lock.Unlock()
+			break
+		}
 
 		var val T
 		var pollErr, offerErr error
@@ -597,6 +602,13 @@ func (q *BufferedChannelQueue[T]) loadFromPool() {
 }
 
 func (q *BufferedChannelQueue[T]) notifyWorkers() {
+	// Close() closes loadWorkerCh under the write lock: never send on it once closed
+	q.lock.RLock()
+	defer q.lock.RUnlock()
+	if q.isClosed.Get() {
+		return
+	}
+
 	q.loadWorkerCh.Offer(1)
 	q.freeNodeWorkerCh.Offer(1)
 }
